@@ -118,6 +118,13 @@ func genC17(t *rapid.T) CaseC17 {
 			c.Plans[gi] = append(c.Plans[gi], o)
 		}
 	}
+	if rapid.IntRange(0, 3).Draw(t, "sameplan") == 2 {
+		// every goroutine runs the SAME operations in the same order: whatever one kind of call shares between its
+		// invocations (a scratch buffer, a memo) is then used by all of them at the same time
+		for gi := 1; gi < len(c.Plans); gi++ {
+			c.Plans[gi] = append([]OpC17(nil), c.Plans[0]...)
+		}
+	}
 	c.Procs = rapid.SampledFrom([]int{2, 4, 16}).Draw(t, "procs")
 	c.Yield = rapid.IntRange(1, 4).Draw(t, "yield")
 	c.SeqViaJSON = rapid.Bool().Draw(t, "seqviajson")
